@@ -66,6 +66,10 @@ var c12Classes = []c12Class{
 	{"operand-right-wrong-kind", `1 + "a"`, true},
 	{"operand-right-wrong-kind-var", `a7 * sl`, true},
 	{"operand-right-nil", `a7 + nilv`, true},
+	{"operand-right-wrong-kind-cmp", `1 < "a"`, true},
+	{"operand-right-wrong-kind-cmp-var", `a7 >= sl`, true},
+	{"operand-right-wrong-kind-sub", `2.5 - "a"`, true},
+	{"operand-right-wrong-kind-mod", `a7 % "a"`, true},
 	{"operand-unary-wrong-kind", `-"a"`, true},
 	{"operand-unary-wrong-kind-var", `-sl`, true},
 	{"minus-on-string", `"a" - "b"`, true},
